@@ -326,6 +326,22 @@ def gen_xset(rng, nops, maxl, pbase):
     return lines
 
 
+def directed_xset():
+    """one short scenario per transition class (the random histories cover them too, these make the quick tier non-vacuous)"""
+    R = "reserve 9000 6000"
+    run = lambda a, n, p, u=0: ["xset 0 %d %d %d" % (a + i, p + i, u) for i in range(n)]
+    return [
+        [R] + run(0, 4, 9000) + ["xset 0 1 9001 0", "xset 0 9 0 0", "xpunch 0 1 2", "xpunch 0 0 0", "xpunch 0 3 9"],          # append, unchanged, already-unmapped, punch-split/front/tail
+        [R] + ["xset 0 5 9005 0", "xset 0 4 9004 0", "xset 0 9 9020 0", "xset 0 8 9019 0", "xset 0 2 9040 0", "xset 0 7 9050 0", "xpunch 0 6 6", "xpunch 0 3 -1"],   # prepend, insert-after, prepend-next(8), insert-before, punch in hole, truncate
+        [R] + ["xset 0 3 9003 0", "xset 0 3 9010 0", "xset 0 3 0 0", "xset 0 3 9003 1", "xset 0 4 9004 1", "xset 0 3 9003 0"],   # single-replace, single-delete, append-uninit, first-remap-insert (flag change)
+        [R] + run(0, 4, 9000) + ["xset 0 3 0 0", "xset 0 0 0 0", "xset 0 3 9030 0"] + run(4, 3, 9031) + ["xset 0 2 9029 0", "xset 0 2 0 0", "xset 0 1 9060 0"],
+        [R] + run(0, 2, 9000) + run(2, 3, 9100) + ["xset 0 2 9002 0", "xset 0 4 9200 0"] + run(5, 2, 9201) + ["xset 0 6 0 0"],
+        [R] + run(0, 7, 9000) + ["xset 0 3 0 0"] + run(10, 7, 9100, 1) + ["xset 0 13 9103 0", "xset 0 14 9104 0", "xset 0 12 9102 0", "xset 0 11 9300 0", "xpunch 0 0 20"],
+        [R] + run(0, 5, 9000) + ["xset 0 4 9104 0"] + run(5, 3, 9105) + ["xset 0 4 9004 0", "xset 0 7 9500 0", "xset 0 0 9600 0"],
+        [R] + run(0, 6, 9000) + ["xset 0 5 9099 0"] + run(6, 3, 9100) + ["xset 0 5 9099 0", "xset 0 5 9098 0"],
+    ]
+
+
 def gen_xfrag(rng, n, bs_blocks):
     """many one-block extents (every other logical block) -> inode root overflows into leaf blocks, then punches"""
     lines = ["reserve 9000 6000"]
@@ -470,6 +486,8 @@ def run_maps(b, drv, tier, work, ev, vd, rng):
     nx = 60 if tier == "quick" else 1500
     for i in range(nx):
         jobs.append(("ext", "Trace_ExtentMap.cfg", "ext4_1k", gen_xset(rng, rng.choice([6, 12, 25, 40]), rng.choice([8, 12, 30]), 9000)))
+    for sc in directed_xset():
+        jobs.append(("ext", "Trace_ExtentMap.cfg", "ext4_1k", sc))
     for i in range(3 if tier == "quick" else 40):
         jobs.append(("ext", "Trace_ExtentMap.cfg", "ext4_1k", gen_xfrag(rng, rng.choice([6, 30, 90, 100] if tier == "quick" else [6, 30, 90, 100, 180, 400]), 1)))
     for i in range(15 if tier == "quick" else 400):
@@ -531,18 +549,43 @@ def run_maps(b, drv, tier, work, ev, vd, rng):
 
 # ------------------------------------------------------------------ model checking
 def model_check(ev, tier, work, vd):
-    runs = []
-    if tier == "quick":
-        runs.append(("FileData", "ASpec", dict(NFiles=2, NCuts=5, MaxOps=3), ["TypeOK", "NoDataPastEOF", "ReadExact", "LastWriteWins"], ["Frame"]))
-    else:
-        runs.append(("FileData", "ASpec", dict(NFiles=2, NCuts=7, MaxOps=4), ["TypeOK", "NoDataPastEOF", "ReadExact", "LastWriteWins"], ["Frame"]))
-    for mod, spec, consts, invs, props in runs:
-        cfg = os.path.join(work, "MC_%s.cfg" % mod)
+    """(1) -> (2): exhaustive BFS of the property spec and of the implementation-shaped specs on small constants, simulation of
+    FileBuf to depth 20, and the literal (Dev*) variants, which must FAIL (otherwise the deviation constant models nothing)."""
+    import re
+    FD_INV = ["TypeOK", "NoDataPastEOF", "ReadExact", "LastWriteWins"]
+    FB_INV = ["Refines", "ReadRefines", "NoScribble", "BlockMapping"]
+    EM_INV = ["Structural", "MapUpdatedExactlyAt", "PunchExact"]
+    q = tier == "quick"
+    runs = [   # module, spec, constants, invariants, properties, simulate, expect_violation
+        ("FileData", "ASpec", dict(NFiles=2, NCuts=5 if q else 7, MaxOps=3 if q else 4), FD_INV, ["Frame"], None, False),
+        ("FileBuf", "Spec", dict(NFiles=1, NCuts=7, MaxOps=3 if q else 4, CPB=2, DevSetSizeStaleBuffer="FALSE"), FB_INV, [], None, False),
+        ("FileBuf", "Spec", dict(NFiles=1, NCuts=7, MaxOps=20, CPB=2, DevSetSizeStaleBuffer="FALSE"), FB_INV, [], 500 if q else 8000, False),
+        ("FileBuf", "Spec", dict(NFiles=1, NCuts=7, MaxOps=4, CPB=2, DevSetSizeStaleBuffer="TRUE"), FB_INV, [], None, True),
+        ("ExtentMap", "ESpec", dict(MaxL=3 if q else 4, MaxP=3 if q else 5, MaxLenInit=4, MaxLenUninit=3, C=1, Inf=99, DevEmptyUnmap="FALSE"), EM_INV, [], None, False),
+        ("ExtentMap", "ESpec", dict(MaxL=3, MaxP=3, MaxLenInit=4, MaxLenUninit=3, C=1, Inf=99, DevEmptyUnmap="TRUE"), EM_INV, [], None, True),
+        ("IndMap", "ISpec", dict(ND=2, A=2, Inf=9999, DevIndPunchRange="FALSE", MaxPunches=2), ["MapUpdatedExactly"], [], None, False),
+        ("IndMap", "ISpec", dict(ND=2, A=2, Inf=9999, DevIndPunchRange="TRUE", MaxPunches=1), ["MapUpdatedExactly"], [], None, True),
+    ]
+    if not q:
+        runs.append(("ExtentMap", "ESpec", dict(MaxL=5, MaxP=7, MaxLenInit=4, MaxLenUninit=3, C=2, Inf=99, DevEmptyUnmap="FALSE"), EM_INV, [], None, False))
+        runs.append(("IndMap", "ISpec", dict(ND=3, A=3, Inf=9999, DevIndPunchRange="FALSE", MaxPunches=1), ["MapUpdatedExactly"], [], None, False))
+    for n, (mod, spec, consts, invs, props, sim, expect_viol) in enumerate(runs):
+        cfg = os.path.join(work, "MC_%s_%d.cfg" % (mod, n))
         T.write_cfg(cfg, spec=spec, constants=consts, invariants=invs, properties=props)
-        r = T.tlc(os.path.join(SPEC, mod + ".tla"), cfg, workers=4, timeout=2400, xmx="4g")
-        ev.add_tlc(r, "%s %s exhaustive BFS: %s" % (mod, consts, ", ".join(invs + props)))
+        r = T.tlc(os.path.join(SPEC, mod + ".tla"), cfg, workers=4, timeout=3000, xmx="4g", simulate=sim, depth=21 if sim else None)
+        if sim:
+            m = re.search(r"The number of states generated: (\d+)", r.out)
+            r.generated = int(m.group(1)) if m else 0
+        label = "%s %s %s: %s" % (mod, {k: v for k, v in consts.items()}, ("simulation num=%d depth 20" % sim) if sim else "exhaustive BFS", ", ".join(invs + props))
+        if expect_viol:
+            label += " [literal behaviour: a violation is REQUIRED]"
+        ev.add_tlc(r, label)
+        if expect_viol:
+            if not r.violated:
+                die_broken("the literal (Dev*) variant of %s %s satisfies the invariants: the deviation constant models nothing\n%s" % (mod, consts, r.out[-800:]))
+            continue
         if r.violated:
-            vd.violation("model:" + mod, "invariant %s violated in %s (design-level counterexample)" % (r.violated, mod), {"tlc": r.out[-3000:]})
+            vd.violation("model:" + mod, "invariant %s violated in %s %s (design-level counterexample)" % (r.violated, mod, consts), {"kind": "model", "tlc": r.out[-3000:]})
         elif not r.ok:
             die_broken("TLC failed on %s: %s\n%s" % (mod, r.error, r.out[-2000:]))
 
